@@ -143,7 +143,7 @@ CStr(k) == Str("c" \o Digit(k))
 MLine(v) == <<"m", " ", v.s>>
 
 \* outcome of a match: [cls: "ok" | "runtime", sel, val, trace (printed lines), gc (Gc afterwards)]
-RECURSIVE MatchEnv(_, _, _, _)
+RECURSIVE MatchEnv(_, _, _, _), BodyRun(_, _, _, _, _)
 BodyRun(body, k, b, rd, devs) ==
   CASE body.kind = "const"  -> [val |-> CStr(k), trace |-> <<>>, gc |-> 0]
     [] body.kind = "name"   -> [val |-> I!Lookup(b, body.arg), trace |-> <<>>, gc |-> 0]
